@@ -203,6 +203,10 @@ def known_region(c, out, which):
     k, o = validate(strip(S), out.copy())
     if k != "errors":
         return None
+    from pandera.api.pandas.components import Index
+    labels = out.index.tolist()
+    if all(isinstance(e.schema, Index) for e in o.schema_errors) and labels != list(range(len(labels))):
+        return "K_C03_dropIndexErrorsByPosition"
     for e in o.schema_errors:
         if e.reason_code.name not in ("SERIES_CONTAINS_DUPLICATES", "DUPLICATES"):
             return None
